@@ -215,7 +215,12 @@ class GlobalContext:
 
             ctx_name = f"modules.{module_name}"
             file_paths.append([ctx_name, f"modules/{module_path}/__init__.py", f"modules/{module_path}"])
-            file_paths.append([ctx_name, f"modules/{module_path}.py", None])
+            #
+            # a file of a package that is imported by its dotted name (import PACKAGE.FILE) can do
+            # relative imports too; a plain module file has no parent package
+            #
+            rel_import_path = f"modules/{os.path.dirname(module_path)}" if "/" in module_path else None
+            file_paths.append([ctx_name, f"modules/{module_path}.py", rel_import_path])
 
         #
         # now see if we have loaded it already
